@@ -1131,10 +1131,9 @@ DLLIMPORT cfg_value_t *cfg_setopt(cfg_t *cfg, cfg_opt_t *opt, const char *value)
 				cfg_free_internal(val->section, 0);
 			}
 			val->section = sec;
-		} else if (!is_set(CFGF_DEFINIT, opt->flags)) {
-			if (cfg_init_defaults(val->section) != CFG_SUCCESS)
-				return NULL;
 		}
+		/* an existing section that is re-entered keeps what it holds:
+		 * its defaults were set when it was created */
 		break;
 	}
 
